@@ -17,8 +17,9 @@ const NAMES: [&str; 3] = ["a", "b", "f"];
 
 #[derive(Clone, Debug, PartialEq)]
 enum Op {
-    /// define name (index) through add_variable (false) or add_variable_from_value (true)
-    Define(usize, bool),
+    /// define name (index) through add_variable (false) or add_variable_from_value (true) with
+    /// value number k of the pool {1, 1u, 2}: 1 and 1u are equal but distinguishable, 1 and 2 differ
+    Define(usize, bool, usize),
     Push,
     Pop,
     /// register a host function under the name (root scope only)
@@ -28,13 +29,23 @@ enum Op {
 fn show_ops(h: &[Op]) -> Vec<String> {
     h.iter()
         .map(|o| match o {
-            Op::Define(n, false) => format!("add_variable({})", NAMES[*n]),
-            Op::Define(n, true) => format!("add_variable_from_value({})", NAMES[*n]),
+            Op::Define(n, false, k) => format!("add_variable({}, {})", NAMES[*n], POOL[*k]),
+            Op::Define(n, true, k) => format!("add_variable_from_value({}, {})", NAMES[*n], POOL[*k]),
             Op::Push => "new_inner_scope".into(),
             Op::Pop => "drop_scope".into(),
             Op::AddFn(n) => format!("add_function({})", NAMES[*n]),
         })
         .collect()
+}
+
+const POOL: [&str; 3] = ["1", "1u", "2"];
+
+fn pool_value(k: usize) -> Value {
+    match k {
+        0 => Value::Int(1),
+        1 => Value::UInt(1),
+        _ => Value::Int(2),
+    }
 }
 
 fn depth_of(h: &[Op]) -> usize {
@@ -52,11 +63,14 @@ fn depth_of(h: &[Op]) -> usize {
 fn enabled(h: &[Op]) -> Vec<Op> {
     let d = depth_of(h);
     let mut v = vec![];
-    for n in 0..3 {
-        v.push(Op::Define(n, false));
+    for k in 0..3 {
+        for n in 0..3 {
+            // the two define APIs alternate over the pool so that the alphabet stays small
+            v.push(Op::Define(n, (n + k) % 2 == 1, k));
+        }
     }
     for n in 0..3 {
-        v.push(Op::Define(n, true));
+        v.push(Op::Define(n, n % 2 == 0, 0));
     }
     if d < 2 {
         v.push(Op::Push);
@@ -72,7 +86,7 @@ fn enabled(h: &[Op]) -> Vec<Op> {
 }
 
 struct Model {
-    frames: Vec<BTreeMap<usize, i64>>,
+    frames: Vec<BTreeMap<usize, usize>>,
     funcs: BTreeSet<usize>,
 }
 
@@ -88,6 +102,7 @@ fn observe(ctx: &Context, progs: &Progs) -> Result<Vec<String>, String> {
         let g = guard(|| ctx.get_variable(NAMES[n])).map_err(|p| format!("get_variable panicked: {}", p))?;
         out.push(match g {
             Ok(Value::Int(i)) => format!("{}", i),
+            Ok(Value::UInt(i)) => format!("{}u", i),
             Ok(other) => format!("?{:?}", other),
             Err(ExecutionError::UndeclaredReference(x)) if x.as_str() == NAMES[n] => "undeclared".into(),
             Err(e) => format!("err:{:?}", e),
@@ -95,6 +110,7 @@ fn observe(ctx: &Context, progs: &Progs) -> Result<Vec<String>, String> {
         let p = subj::exec(&progs.var[n], ctx);
         out.push(match p {
             Out::Val(MV::Int(i)) => format!("{}", i),
+            Out::Val(MV::Uint(i)) => format!("{}u", i),
             Out::Err(EC::Undeclared(x)) if x == NAMES[n] => "undeclared".into(),
             other => format!("?{}", other.show()),
         });
@@ -118,7 +134,7 @@ fn expect_obs(m: &Model, level: usize) -> Vec<String> {
                 break;
             }
         }
-        let s = v.map(|x| x.to_string()).unwrap_or("undeclared".into());
+        let s = v.map(|k| POOL[k].to_string()).unwrap_or("undeclared".into());
         out.push(s.clone());
         out.push(s);
         out.push(if m.funcs.contains(&n) { format!("{}", 1000 + n as i64 + 1) } else { "undeclared".into() });
@@ -131,15 +147,14 @@ fn expect_obs(m: &Model, level: usize) -> Vec<String> {
 /// end of the history (innermost last).
 fn drive(cur: &mut Context<'_>, chain: &mut Vec<*const Context<'static>>, ops: &[Op], i: &mut usize, progs: &Progs) -> Result<Option<Vec<Vec<String>>>, String> {
     while *i < ops.len() {
-        let step = *i as i64 + 1;
         let op = ops[*i].clone();
         *i += 1;
         match op {
-            Op::Define(n, false) => {
-                guard(|| cur.add_variable(NAMES[n], Value::Int(step))).map_err(|p| format!("add_variable panicked: {}", p))?.map_err(|e| format!("add_variable failed: {}", e))?;
+            Op::Define(n, false, k) => {
+                guard(|| cur.add_variable(NAMES[n], pool_value(k))).map_err(|p| format!("add_variable panicked: {}", p))?.map_err(|e| format!("add_variable failed: {}", e))?;
             }
-            Op::Define(n, true) => {
-                guard(|| cur.add_variable_from_value(NAMES[n], step)).map_err(|p| format!("add_variable_from_value panicked: {}", p))?;
+            Op::Define(n, true, k) => {
+                guard(|| cur.add_variable_from_value(NAMES[n], pool_value(k))).map_err(|p| format!("add_variable_from_value panicked: {}", p))?;
             }
             Op::AddFn(n) => {
                 let ret = 1000 + n as i64;
@@ -173,10 +188,10 @@ fn drive(cur: &mut Context<'_>, chain: &mut Vec<*const Context<'static>>, ops: &
 
 fn model_of(ops: &[Op]) -> Model {
     let mut m = Model { frames: vec![BTreeMap::new()], funcs: BTreeSet::new() };
-    for (k, op) in ops.iter().enumerate() {
+    for op in ops.iter() {
         match op {
-            Op::Define(n, _) => {
-                m.frames.last_mut().unwrap().insert(*n, k as i64 + 1);
+            Op::Define(n, _, k) => {
+                m.frames.last_mut().unwrap().insert(*n, *k);
             }
             Op::Push => m.frames.push(BTreeMap::new()),
             Op::Pop => {
@@ -190,23 +205,9 @@ fn model_of(ops: &[Op]) -> Model {
     m
 }
 
-/// canonical key: frames with values renamed in order of first appearance + function set.
-/// Correct because futures only depend on which names are bound where and on equality of values
-/// (fresh values are never reused), not on the numeric values themselves.
+/// canonical key: the exact frames (values come from a fixed pool) + function set
 fn canon(m: &Model) -> String {
-    let mut ren: BTreeMap<i64, usize> = BTreeMap::new();
-    let mut s = String::new();
-    for f in &m.frames {
-        s.push('[');
-        for (n, v) in f {
-            let k = ren.len();
-            let id = *ren.entry(*v).or_insert(k);
-            s.push_str(&format!("{}={},", n, id));
-        }
-        s.push(']');
-    }
-    s.push_str(&format!("{:?}", m.funcs));
-    s
+    format!("{:?}|{:?}", m.frames, m.funcs)
 }
 
 fn part_a(run: &mut Run) {
@@ -279,24 +280,31 @@ fn nm(i: usize) -> E {
 }
 
 /// all int-valued bodies with `d` further macro levels available
-fn bodies(d: usize, inner_forms: &[&'static str]) -> Vec<E> {
+fn bodies(d: usize, inner_forms: &[&'static str], arith_after: bool) -> Vec<E> {
     let mut v: Vec<E> = vec![];
     for n in 0..3 {
         v.push(nm(n));
     }
-    for n in 0..3 {
-        v.push(call("f", vec![nm(n)]));
-        v.push(call("a", vec![nm(n)]));
+    if arith_after {
+        for n in 0..3 {
+            v.push(call("f", vec![nm(n)]));
+            v.push(call("a", vec![nm(n)]));
+        }
     }
     if d > 0 {
-        let inner = bodies(d - 1, inner_forms);
+        let inner = bodies(d - 1, inner_forms, arith_after);
         let range = E::Lit(MV::List(vec![MV::Int(30 + d as i64)]));
         for form in inner_forms {
             for var in 0..3 {
                 for bd in inner.iter() {
                     for after in 0..3 {
                         let m = macro_of(form, range.clone(), NAMES[var], bd.clone());
-                        v.push(E::Bin("+", b(flow(form, m)), b(nm(after))));
+                        if arith_after {
+                            v.push(E::Bin("+", b(flow(form, m)), b(nm(after))));
+                        } else if after == 0 {
+                            // outer values of another numeric type: no arithmetic with them
+                            v.push(flow(form, m));
+                        }
                     }
                 }
             }
@@ -327,10 +335,17 @@ fn flow(form: &str, m: E) -> E {
 }
 
 fn part_b(run: &mut Run) {
+    part_b_profile(run, "ints", [MV::Int(1), MV::Int(2), MV::Int(3)]);
+    // outer bindings that are numerically EQUAL to the elements the macros iterate over but of
+    // another numeric type: an implementation that skips "redundant" shadowing is visible here
+    part_b_profile(run, "twins", [MV::f(10.0), MV::Uint(20), MV::Uint(31)]);
+}
+
+fn part_b_profile(run: &mut Run, profile: &str, vals: [MV; 3]) {
     let mut env = Env::new();
-    env.set("a", MV::Int(1));
-    env.set("b", MV::Int(2));
-    env.set("f", MV::Int(3));
+    env.set("a", vals[0].clone());
+    env.set("b", vals[1].clone());
+    env.set("f", vals[2].clone());
     env.hosts.insert("f".into(), Host::Typed(vec!["int"]));
     env.hosts.insert("a".into(), Host::Typed(vec!["int"]));
     let log = hosts::new_log();
@@ -341,9 +356,10 @@ fn part_b(run: &mut Run) {
     let quick = run.quick();
     let inner_forms: Vec<&'static str> = if quick { vec!["map", "exists", "filter"] } else { vec!["map", "exists", "filter", "all", "map3"] };
     let depth = run.pick(1usize, 2usize);
-    let inner = bodies(depth, &inner_forms);
+    let arith = profile == "ints";
+    let inner = bodies(depth, &inner_forms, arith);
     run.rep.extra.insert("inner_bodies".into(), json!(inner.len()));
-    run.sub("macro-programs");
+    run.sub(&format!("macro-programs-{}", profile));
     let range = E::Lit(MV::List(vec![MV::Int(10), MV::Int(20)]));
     for form in FORMS.iter() {
         for var in 0..3 {
@@ -354,14 +370,19 @@ fn part_b(run: &mut Run) {
                     }
                     // R.FORM(V, BODY) flowing into `+ after`: the name after the macro must see the outer binding
                     let m = macro_of(form, range.clone(), NAMES[var], bd.clone());
-                    let e = E::List(vec![E::Bin("+", b(flow(form, m)), b(nm(after))), nm(var)]);
+                    let e = if arith {
+                        E::List(vec![E::Bin("+", b(flow(form, m)), b(nm(after))), nm(var)])
+                    } else {
+                        // the macro's own value, then the names as seen after it
+                        E::List(vec![m, nm(after), nm(var)])
+                    };
                     let src = e.src();
                     env.log.clear();
                     let exp = eval(&e, &mut env);
                     let got = subj::run_src(&src, &ctx);
                     run.trans(2);
                     let case = || json!({"src": src, "expected": format!("{:?}", exp), "got": got.show()});
-                    run.class(&format!("prog:{}:{}:{}", form, exp_tag(&exp), got.tag()), case);
+                    run.class(&format!("prog-{}:{}:{}:{}", profile, form, exp_tag(&exp), got.tag()), case);
                     match compare(&exp, &got) {
                         None => {}
                         Some(ok) => {
@@ -369,7 +390,7 @@ fn part_b(run: &mut Run) {
                             run.nontrivial();
                             if !ok {
                                 run.fail(
-                                    &format!("C11|prog|{}|expect={}|got={}", form, exp_tag(&exp), got.tag()),
+                                    &format!("C11|prog-{}|{}|expect={}|got={}", profile, form, exp_tag(&exp), got.tag()),
                                     format!("`{}` : lexical scoping gives {:?}, implementation gave {}", src, exp, got.show()),
                                     case(),
                                 );
@@ -377,9 +398,9 @@ fn part_b(run: &mut Run) {
                         }
                     }
                     // the context is untouched by the macro variables
-                    for (k, want) in [(0usize, 1i64), (1, 2), (2, 3)] {
+                    for k in 0..3usize {
                         match ctx.get_variable(NAMES[k]) {
-                            Ok(Value::Int(v)) if v == want => {}
+                            Ok(v) if MV::from_value(&v) == vals[k] => {}
                             other => run.fail("C11|prog|context-variable-changed", format!("after `{}` the context variable {} is {:?}", src, NAMES[k], other), json!({"src": src})),
                         }
                     }
